@@ -498,6 +498,13 @@ fn apply(ctx: &mut Ctx, f: Findings, input: &str, family: &str) {
 fn examine_isolated(ctx: &mut Ctx, input: &str, family: &str, _seen: &mut HashSet<String>, only_entry: Option<usize>) {
     use std::os::unix::process::ExitStatusExt;
     use std::process::{Command, Stdio};
+    if ctx.lane == "M" || cfg!(miri) {
+        // the interpreter cannot spawn processes, and it is exactly the tool that sees the UB: in-process
+        let mut f = Findings::default();
+        examine(input, &mut f, _seen, only_entry);
+        apply(ctx, f, input, family);
+        return;
+    }
     let Ok(exe) = std::env::current_exe() else {
         ctx.count("excluded:no-current-exe");
         return;
